@@ -309,7 +309,7 @@ def check(ctx):
                                     (("iter", n("names")),), ())
                 and inputs_term[0] == "call" and inputs_term[1][0] == "a"
                 and inputs_term[1][2] == "union"
-                and inputs_term[1][1] == ("call", ("n", "set"), (), ())
+                and inputs_term[1][1][0] == "set" and inputs_term[1][1][1] == ()
                 and inputs_term[2] == (("star", comps[0]),))
     ctx.ob("C01.R6", upd, "the target set is the union of the recursive inputs of ALL "
                           "given names", ok_u, detail=short(inputs_term or ()),
